@@ -1335,6 +1335,16 @@ asn1constraint_compute_constraint_range(
 		return range;
 	}
 
+	if(vmin != vmax && range->el_count == 0
+	&& range->left.type == ARE_VALUE && range->right.type == ARE_VALUE
+	&& range->left.value > range->right.value) {
+		FATAL("Constraint lower bound is greater than its "
+			"upper bound at line %d", ct->_lineno);
+		_range_free(range);
+		errno = EPERM;
+		return NULL;
+	}
+
 	if(minmax) {
 		asn1cnst_range_t *clone;
 
